@@ -242,6 +242,10 @@ func (r *Reader) TextWithOptions(opts ExtractOptions) (string, error) {
 				if elem.Paragraph != nil {
 					// Check if this paragraph should be excluded
 					if r.shouldExcludeParagraph(elem.Paragraph.Text, opts) {
+						// Exclusion only deletes: the list counters still
+						// advance, so the remaining items keep their numbers
+						var discarded strings.Builder
+						r.writeParagraphText(&discarded, elem.Paragraph, listCounters)
 						continue
 					}
 					r.writeParagraphText(&result, elem.Paragraph, listCounters)
@@ -259,6 +263,8 @@ func (r *Reader) TextWithOptions(opts ExtractOptions) (string, error) {
 	for i, para := range r.paragraphs {
 		// Check if this paragraph should be excluded
 		if r.shouldExcludeParagraph(para.Text, opts) {
+			var discarded strings.Builder
+			r.writeParagraphText(&discarded, &para, listCounters)
 			continue
 		}
 		if i > 0 {
